@@ -9,11 +9,12 @@ import (
 )
 
 type wrrFreshCase struct {
-	Weights []int    `json:"weights"`
-	Via     string   `json:"via"`
-	Build   string   `json:"build"` // config (NewLoadBalancer) | admin (empty pool + lb.AddBackend per backend)
-	Load    loadPlan `json:"inflight"`
-	Obs     obsPlan  `json:"observers"`
+	Weights []int         `json:"weights"`
+	Via     string        `json:"via"`
+	Build   string        `json:"build"` // config (NewLoadBalancer) | admin (empty pool + lb.AddBackend per backend)
+	Load    loadPlan      `json:"inflight"`
+	Obs     obsPlan       `json:"observers"`
+	Dress   lab.DressPlan `json:"dress"`
 }
 
 // wrrFresh builds a fresh weighted_round_robin pool and checks every window of S = sum(max(w,1))
@@ -33,6 +34,7 @@ func wrrFresh(c wrrFreshCase) (string, error) {
 		return "", err
 	}
 	defer p.close()
+	p.dress = c.Dress
 	want := map[string]int{}
 	S := 0
 	for _, n := range p.names {
@@ -180,12 +182,12 @@ func TestC05WRRFreshSampled(t *testing.T) {
 			via = "next"
 		}
 		c := wrrFreshCase{Weights: ws, Via: via, Build: build,
-			Load: drawLoad(rt, n, false), Obs: drawObs(rt)}
+			Load: drawLoad(rt, n, false), Obs: drawObs(rt), Dress: lab.DrawDressPlan(rt)}
 		v, err := wrrFresh(c)
 		if err != nil {
 			rt.Fatalf("harness: %v", err)
 		}
-		labels := append([]string{"via-" + c.Via, "build-" + build}, planLabels(c.Load, c.Obs)...)
+		labels := append([]string{"via-" + c.Via, "build-" + build, c.Dress.Label()}, planLabels(c.Load, c.Obs)...)
 		if n >= 5 {
 			labels = append(labels, "n5-8")
 		}
